@@ -28,6 +28,7 @@ ASSUMPTIONS = ["incoming 'left_of' and sign 'first_occurrence' are not among the
 # lanelet id -> (x0, x1, y0, y1, types)
 GEO = {1: (0.0, 10.0, 0.0, 3.0, ["URBAN"]), 2: (10.0, 20.0, 0.0, 3.0, ["URBAN", "MAIN_CARRIAGE_WAY"]), 3: (20.0, 30.0, 0.0, 3.0, ["HIGHWAY"]),
        4: (10.0, 20.0, 3.0, 6.0, ["BUS_LANE"]), 5: (10.0, 20.0, -3.0, 0.0, ["SIDEWALK"]), 6: (30.0, 40.0, 0.0, 3.0, ["HIGHWAY", "URBAN"])}
+GEO[0] = GEO[5]       # deviation lanelet-id-zero: lanelet 5 carries the id 0
 TABLE = {i: ([(g[0], g[2]), (g[1], g[2])], [(g[0], g[3]), (g[1], g[3])]) for i, g in GEO.items()}
 
 
@@ -118,12 +119,35 @@ def deviations():
         sp["intersections"][0]["incomings"][1]["left_of"] = 0
         sp["intersections"][0]["incomings"][1]["left_of_set_later"] = True       # assigned through the setter (as a file reader does)
 
+    def untyped_lanelets(sp):
+        # lanelets constructed without a lanelet type (the constructor default: an empty set): 1 and 4
+        sp["lanelets"][0]["types"] = []; sp["lanelets"][3]["types"] = []
+
+    def lanelet_id_zero(sp):
+        # 0 is a valid lanelet id: lanelet 5 (right neighbour of 2, successor of an incoming, crossing) carries it
+        def ren(v):
+            return 0 if v == 5 else v
+        for l in sp["lanelets"]:
+            if l["id"] == 5:
+                l["id"] = 0
+            for k_ in ("pred", "succ"):
+                if k_ in l:
+                    l[k_] = [ren(x) for x in l[k_]]
+            for k_ in ("adj_left", "adj_right"):
+                if l.get(k_):
+                    l[k_] = [ren(l[k_][0]), l[k_][1]]
+        for it in sp["intersections"]:
+            it["crossings"] = [ren(x) for x in it.get("crossings", [])]
+            for inc in it["incomings"]:
+                for k_ in ("lanelets", "right", "straight", "left"):
+                    inc[k_] = [ren(x) for x in inc.get(k_, [])]
+
     def two_incoming_lanelets(sp):
         sp["intersections"][0]["incomings"][0]["lanelets"] = [1, 2]
         sp["intersections"][0]["incomings"][0]["left"] = [4]
     return [("diamond", diamond), ("sixth-lanelet", sixth), ("adjacency-flip", adj_flip), ("sign-on-all", sign_all), ("second-intersection", second_intersection),
             ("light-shared", light_shared), ("incoming-two-lanelets", two_incoming_lanelets), ("stopline-light-subset", stopline_light_subset), ("one-sided-links", one_sided_links), ("signs-without-first-occurrence", signs_without_first_occurrence),
-            ("shared-reference-sets", shared_reference_sets), ("stopline-refs-none", stopline_refs_none), ("incoming-id-zero", incoming_id_zero)]
+            ("shared-reference-sets", shared_reference_sets), ("stopline-refs-none", stopline_refs_none), ("incoming-id-zero", incoming_id_zero), ("untyped-lanelets", untyped_lanelets), ("lanelet-id-zero", lanelet_id_zero)]
 
 
 def variant(names):
@@ -406,7 +430,8 @@ def check(live, model, model2, op, obs, pre):
 
 CUT_SHAPES = [None, ["rect", 100.0, 40.0, 15.0, 1.5, 0], ["rect", 12.0, 8.0, 6.0, 1.5, 0], ["circle", 2.0, 25.0, 1.5], ["poly", [[11.0, 3.5], [19.0, 3.5], [19.0, 5.5], [11.0, 5.5]]],
               ["rect", 5.0, 3.0, 7.5, 1.5, 0], ["rect", 4.0, 4.0, 200.0, 200.0, 0]]
-TYPE_SETS = [[], ["URBAN"], ["HIGHWAY"], ["BUS_LANE", "SIDEWALK"], ["URBAN", "HIGHWAY"], ["MAIN_CARRIAGE_WAY"], ["SIDEWALK"], ["URBAN", "HIGHWAY", "BUS_LANE", "SIDEWALK"]]
+TYPE_SETS = [[], ["URBAN"], ["HIGHWAY"], ["BUS_LANE", "SIDEWALK"], ["URBAN", "HIGHWAY"], ["MAIN_CARRIAGE_WAY"], ["SIDEWALK"], ["URBAN", "HIGHWAY", "BUS_LANE", "SIDEWALK"],
+             ["UNKNOWN"], ["UNKNOWN", "SIDEWALK"]]     # (a lanelet without any type is not of type UNKNOWN: excluding UNKNOWN keeps it)
 
 
 def expected_cut(s, kept):
@@ -529,7 +554,7 @@ def units(tier):
         for level in ("net", "scenario"):
             # thorough: pairs of deviations at depth 2; quick: the four deviations that only alter reference data (not the graph) at depth 2
             d = 2 if (tier == "thorough" and len(v) == 2) else depth
-            if tier == "quick" and v and v[0] in ("stopline-light-subset", "one-sided-links", "signs-without-first-occurrence", "shared-reference-sets", "stopline-refs-none", "incoming-id-zero"):
+            if tier == "quick" and v and v[0] in ("stopline-light-subset", "one-sided-links", "signs-without-first-occurrence", "shared-reference-sets", "stopline-refs-none", "incoming-id-zero", "untyped-lanelets"):
                 d = 2
             live = build_net(v) if level == "net" else build_scenario(v)
             u.append({"variant": v, "level": level, "depth": 0, "first": None})
